@@ -200,13 +200,15 @@ def gen_lin(rng, sid):
     cfg = {"q": -1, "refresh": rng.choice(["auto", "auto", "none"]), "pop": False, "notifier": False, "width": 120,
            "delay": False, "outfault": 0, "ctx": False}
     progs = [[] for _ in range(k)]
-    progs[0].append({"op": "add", "b": "b1", "total": total,
-                     "pre": [decor_spec(rng, False, wrap_ok=False)] if rng.random() < 0.5 else []})
+    pre = [decor_spec(rng, False, wrap_ok=False)] if rng.random() < 0.5 else []
+    if pre and rng.random() < 0.5:
+        pre[0]["ewma"] = True
+    progs[0].append({"op": "add", "b": "b1", "total": total, "pre": pre})
     for c in range(k):
         for _ in range(rng.randint(2, 5)):
             r = rng.random()
             if r < 0.4:
-                progs[c].append({"op": "incr", "b": "b1", "n": rng.randint(1, 2)})
+                progs[c].append({"op": rng.choice(["incr", "incr", "ewma"]), "b": "b1", "n": rng.randint(1, 2)})
             elif r < 0.5:
                 progs[c].append({"op": "getcur", "b": "b1"})
             elif r < 0.6:
@@ -299,7 +301,12 @@ def pty_programs(seed, n):
         nb = rng.randint(1, h + 1)
         pop = rng.random() < 0.5
         bars = [{"ext": rng.choice([0, 0, 0, 1, 2]), "nopop": pop and rng.random() < 0.2, "rm": (not pop) and rng.random() < 0.3} for _ in range(nb)]
-        if pop:
+        exact = True
+        if pop and rng.random() < 0.3:
+            # more rows than the terminal holds in pop mode: the clipped rows are the popped ones, so which rows
+            # persist is not knowable from the program; only "no row twice / nothing too wide or high" is checked
+            exact = False
+        elif pop:
             # a popped bar must be visible when it is popped: keep every frame within the terminal
             # (with more rows than the terminal holds the clipped rows are the popped ones: DESIGN.md C18)
             while sum(1 + b["ext"] for b in bars) > h - 1 and bars:
@@ -333,5 +340,5 @@ def pty_programs(seed, n):
                 steps.append({"op": "refresh", "b": 0})
         for _ in range(3):
             steps.append({"op": "refresh", "b": 0})
-        out.append({"id": "pty-%d-%d" % (seed, i), "h": h, "w": 40, "pop": pop, "bars": bars, "steps": steps})
+        out.append({"id": "pty-%d-%d" % (seed, i), "h": h, "w": 40, "pop": pop, "exact": exact, "bars": bars, "steps": steps})
     return out
